@@ -8,7 +8,7 @@ Open Scope Z_scope.
 
 Inductive fcode := FAffine (a b : Z).                       (* x |-> a*x + b *)
 Inductive pcode := PLt (c : Z) | PEven | PModEq (m r : Z) | PTrue | PFalse.
-Inductive failcode := NoFail | FailModEq (m r : Z) | FailIn (xs : list Z).
+Inductive failcode := NoFail | FailModEq (m r : Z) | FailIn (xs : list Z) | FailGe (m : Z).
 Inductive moncode := MSum | MProd | MLin.                   (* MLin: combine a b = 3a+b from 0: order sensitive *)
 
 Definition fapply (f : fcode) (x : Z) : Z := match f with FAffine a b => a * x + b end.
@@ -25,6 +25,7 @@ Definition fails (fl : failcode) (x : Z) : bool :=
   | NoFail => false
   | FailModEq m r => Z.eqb (x mod m) r
   | FailIn xs => existsb (Z.eqb x) xs
+  | FailGe m => Z.leb m x
   end.
 Definition err_of (x : Z) : Z := 1000 + x.                  (* the error value names the element *)
 
